@@ -131,12 +131,17 @@ def shorthand_size(sh):
     return MAJOR_SIZE[num] + sh[:-1].count("#") - sh[:-1].count("b")
 
 
-def all_shorthands(k=2):
-    """Shorthands with up to k accidentals of one sign plus a degree 1..7 (35 for k=2)."""
+def all_shorthands(k=2, mixed=False):
+    """Shorthands with up to k accidentals of one sign plus a degree 1..7 (35 for k=2); with mixed=True
+    also the two-accidental prefixes '#b' and 'b#' (size = major size + sharps - flats)."""
     out = []
     for n in range(-k, k + 1):
         for d in range(1, 8):
             out.append(("#" * n if n >= 0 else "b" * (-n)) + str(d))
+    if mixed:
+        for pre in ("#b", "b#"):
+            for d in range(1, 8):
+                out.append(pre + str(d))
     return out
 
 
